@@ -4,9 +4,10 @@
 // one batch) interleaved with flush, level/full compaction, out-of-order merge and clean
 // reopen run on a real shard (engine verif facade). After every step the shard is read through
 // the series-cursor path, ascending and descending, on a random time range and field subset.
-//   ops.txt   : the history, for the Lean model of the layout
-//   impl.out  : what the shard answered
-//   viol.out  : answers that differ from the Go-side last-write-wins map (the property itself)
+//
+//	ops.txt   : the history, for the Lean model of the layout
+//	impl.out  : what the shard answered
+//	viol.out  : answers that differ from the Go-side last-write-wins map (the property itself)
 package c02
 
 import (
@@ -15,6 +16,7 @@ import (
 	"os"
 	"sort"
 	"strings"
+	"time"
 
 	"github.com/openGemini/openGemini/engine"
 
@@ -337,8 +339,10 @@ func (h *history) readCheck(r *hx.Rng, tag string) error {
 			}
 			if ans == pred.readK(x.fields, x.lo, x.hi, x.asc, x.limit+x.offset) {
 				class = "wal_replay_order_mod_n"
-			} else if h.reopened && x.limit+x.offset == 0 && unmergedDuplicates(ans, want) {
-				class = "unmerged_duplicate_time_after_reopen"
+			}
+			if unmergedDuplicates(ans, want) {
+				// the signature of overlapping ordered files (fixed in /repo: sequencer reload vs. compaction)
+				h.c.Count("violation:one-(series,time)-answered-as-two-rows")
 			}
 			h.c.Violation(line, class, fmt.Sprintf("after %s: shard answered %q, last-write-wins replay says %q", tag, ans, want))
 		}
@@ -354,7 +358,7 @@ func trace(format string, a ...any) {
 	}
 }
 
-func runHistory(c *hx.Ctx, r *hx.Rng, idx int, maxOps int) error {
+func runHistory(c *hx.Ctx, r *hx.Rng, idx int, maxOps int, script []int) error {
 	dir := engx.FastScratchDir("c02")
 	defer os.RemoveAll(dir)
 	walParts := []int{1, 2, 4}[r.Intn(3)]
@@ -380,13 +384,52 @@ func runHistory(c *hx.Ctx, r *hx.Rng, idx int, maxOps int) error {
 	c.Emit(fmt.Sprintf("parts %d", walParts), "ok")
 	c.Count(fmt.Sprintf("wal-partitions=%d", walParts))
 	nOps := 3 + r.Intn(maxOps)
+	if len(script) > 0 {
+		// a scripted history ends with its script: were the flush to leave overlapping ordered files, a
+		// later compaction would panic ("the time column is not ordered") and take the harness, and the
+		// failing reads with it
+		nOps = len(script)
+		c.Count("history:scripted-start(restart,write,compaction,late-write,flush)")
+	}
 	hiWater := 0
 	kinds := ""
 	for i := 0; i < nOps; i++ {
 		p := r.Intn(100)
+		if i < len(script) {
+			p = script[i] // the op kind is given, its content is random
+			if i == len(script)-1 {
+				// -D pause=<ms>: used with a build overlay that delays the sequencer's file loads, to let the
+				// delayed reload finish before the flush (the forced schedule of the sequencer finding)
+				ms := 0
+				if os.Getenv("VERIF_OVERLAY") != "" {
+					ms = 400 // sensitivity runs: a mutant that slows the reload down gets the time to finish it
+				}
+				fmt.Sscan(c.Arg("pause", fmt.Sprint(ms)), &ms)
+				time.Sleep(time.Duration(ms) * time.Millisecond)
+			}
+		}
 		switch {
 		case p < 55:
-			rows := genBatch(r, 6, r.Chance(25), hiWater, sparse)
+			maxRows := 6
+			burst := r.Chance(12)
+			if burst {
+				// a burst: 14..30 rows, mostly of one series, all over the time range: more than 12 unsorted rows
+				// with repeated timestamps in one memtable chunk / one flush
+				maxRows = 30
+			}
+			rows := genBatch(r, maxRows, r.Chance(25) || burst, hiWater, sparse)
+			if burst {
+				for len(rows) < 14 {
+					rows = append(rows, genBatch(r, 6, true, hiWater, sparse)...)
+				}
+				one := r.Intn(nSeries)
+				for i := range rows {
+					if r.Chance(80) {
+						rows[i].Series = one
+					}
+				}
+				c.Count("op:write-burst>12rows-of-a-series")
+			}
 			var ts []string
 			for _, x := range rows {
 				ts = append(ts, x.Text())
@@ -538,7 +581,16 @@ func Run(c *hx.Ctx) error {
 		if from >= 0 && (i < from || i > to) {
 			continue
 		}
-		if err := runHistory(c, rh, i, 22); err != nil {
+		// every 8th history starts with the schedule behind the sequencer finding (fix in /repo: the
+		// reload of the per-series last flushed times that the first write after a restart starts must
+		// not lose the files a compaction replaces meanwhile): two flushed files, restart, write,
+		// compaction right away, writes of late rows, flush
+		var script []int
+		if i%8 == 3 {
+			comp := []int{75, 82, 90}[rh.Intn(3)] // level compaction / full compaction / out-of-order merge
+			script = []int{0, 60, 0, 60, 95, 0, comp, 0, 0, 60}
+		}
+		if err := runHistory(c, rh, i, 22, script); err != nil {
 			return err
 		}
 	}
